@@ -739,6 +739,8 @@ type world struct {
 	extExpiredSlack                                   int // entries already expired when an external ExpireAll ran
 	extWrites                                         int // external writes of neighbour keys (ctlOpts.extCleanup)
 	foreignErr                                        map[bool]error
+	side                                              Backend  // another cache of the library that builders write by-products to
+	sideKeys                                          []string // keys written there (guarded by log.mu)
 }
 
 func newWorld(c *Case, cfg foCfg) *world {
@@ -903,6 +905,7 @@ type getSpec struct {
 	errKind    int             // 0 plain, 1 wraps context.Canceled, 2 wraps context.DeadlineExceeded, 3 wraps cache.ErrNotFound, 4 wraps cache.ErrExpired, 5/6 wraps the expiry error (with item) another cache returned
 	builderTTL []time.Duration // WithTTL(ctx, t, true) calls made by the builder
 	nestedKey  []byte          // the builder itself calls Get for this (other, "later") key of the same frontend with its own context
+	sideWrite  bool            // the builder writes a key of its own to ANOTHER cache of the library with the context it was given, then reuses its key buffer
 	// post-return caller actions
 	poison       int // 0 = 0xAA fill, 1 = overwrite with otherKey, 2 = leave
 	otherKey     []byte
@@ -943,6 +946,22 @@ func (w *world) builderFor(g *getSpec, t *task) func(ctx context.Context) (strin
 
 		for _, bt := range g.builderTTL {
 			cache.WithTTL(ctx, bt, true)
+		}
+
+		// a builder may store by-products in another cache of the library, under the context it was given,
+		// building its keys in a buffer that it rewrites afterwards
+		if g.sideWrite && w.side != nil {
+			sk := fmt.Sprintf("side:%x:%d", g.key, n)
+			buf := []byte(sk)
+			_ = w.side.Write(ctx, buf, "by-product")
+
+			for j := range buf {
+				buf[j] = 0xEE
+			}
+
+			l.mu.Lock()
+			w.sideKeys = append(w.sideKeys, sk)
+			l.mu.Unlock()
 		}
 
 		// a builder may depend on another cached value of the same frontend (dependencies are acyclic)
@@ -996,6 +1015,14 @@ func (w *world) builderFor(g *getSpec, t *task) func(ctx context.Context) (strin
 func (w *world) startGet(g *getSpec) {
 	if g.buildFails && g.errKind >= 5 {
 		w.foreignExpired(g.errKind == 6) // prepared on the controller goroutine, the builder only picks it up
+	}
+
+	if g.sideWrite && w.side == nil {
+		w.side = newCaseBackend(w.c, variantKinds[w.cfg.variant], cache.Config{
+			Name: "side", TimeToLive: time.Hour, ExpirationJitter: -1,
+			DeleteExpiredJobInterval: farFuture, DeleteExpiredAfter: farFuture, ItemsCountReportInterval: farFuture,
+		})
+		w.c.Class("builder-writes-to-another-cache")
 	}
 
 	t := &task{id: g.idx, name: fmt.Sprintf("g%d", g.idx), get: g}
@@ -1373,4 +1400,35 @@ func (w *world) foreignExpired(generic bool) error {
 	w.c.Class("failure-wraps-expired-item-of-another-cache")
 
 	return r.Err
+}
+
+// checkSide: the by-product cache holds exactly the keys the builders wrote, whatever they did to
+// their key buffers afterwards.
+func (w *world) checkSide() {
+	if w.side == nil {
+		return
+	}
+
+	w.log.mu.Lock()
+	want := map[string]bool{}
+	for _, k := range w.sideKeys {
+		want[k] = true
+	}
+	w.log.mu.Unlock()
+
+	got := map[string]bool{}
+
+	_, _ = w.side.Walk(func(k []byte, _ interface{}, _ time.Time) error {
+		got[string(k)] = true
+
+		return nil
+	})
+
+	for k := range got {
+		w.c.Assert(want[k], "side-key-corrupted", "the cache a builder wrote by-products to holds key %s which nobody wrote (the builder rewrote its key buffer after Write returned)", keyName([]byte(k)))
+	}
+
+	for k := range want {
+		w.c.Assert(got[k], "side-key-corrupted", "key %s written by a builder to another cache is not there any more", keyName([]byte(k)))
+	}
 }
